@@ -1012,9 +1012,9 @@ fn ring_round(_rt: &tokio::runtime::Runtime, _rng: &mut Rng, cfg: &mut String) -
 // ---------------------------------------------------------------------------------------------
 // hot loop of timed blocking calls against an actor that answers at once
 // ---------------------------------------------------------------------------------------------
-/// 2-4 threads keep calling blocking_ask / blocking_tell with a 5 s timeout (or the async timeout
+/// 2-4 threads keep calling blocking_ask / blocking_tell with a 20 s timeout (or the async timeout
 /// variants through block_on) on a live actor whose handler returns immediately. Every call
-/// completes within microseconds, so none may report Timeout, and each must be back long before 5 s.
+/// completes within microseconds, so none may report Timeout.
 fn hot_round(rt: &tokio::runtime::Runtime, rng: &mut Rng, cfg: &mut String) -> Option<Bad> {
     let threads = 2 + rng.below(3) as usize;
     let calls = 100 + rng.below(300) as u32;
@@ -1033,7 +1033,7 @@ fn hot_round(rt: &tokio::runtime::Runtime, rng: &mut Rng, cfg: &mut String) -> O
             for i in 0..calls {
                 let id = 1000 * (t as u32 + 1) + i;
                 let b = Instant::now();
-                let o = call(&r2, &h2, api, id, Duration::from_secs(5));
+                let o = call(&r2, &h2, api, id, Duration::from_secs(20));
                 let el = b.elapsed();
                 let fine = match (&o, is_tell(api)) {
                     (Outc::Ok, true) => true,
@@ -1067,7 +1067,7 @@ fn hot_round(rt: &tokio::runtime::Runtime, rng: &mut Rng, cfg: &mut String) -> O
             Outc::Reply(_) => ("C03", "wrong-reply"),
             _ => ("C17", "send-failed-on-live-actor"),
         };
-        return bad(p, kind, format!("{api:?} of message {id} with a 5 s timeout, against a live actor whose handler returns at once ({threads} threads calling in a loop), returned {o:?} after {el:?}"));
+        return bad(p, kind, format!("{api:?} of message {id} with a 20 s timeout, against a live actor whose handler returns at once ({threads} threads calling in a loop), returned {o:?} after {el:?}"));
     }
     None
 }
@@ -1174,8 +1174,8 @@ fn rearm_round(rt: &tokio::runtime::Runtime, rng: &mut Rng, cfg: &mut String) ->
         }
         let base = sh.ticks.load(Ordering::Acquire);
         while sh.ticks.load(Ordering::Acquire) < base + 2 {
-            if t0.elapsed() > Duration::from_secs(5) {
-                return bad("C08", "on-run-not-rearmed", format!("on_run returned Ok(true) every time; after message {i} of {msgs} ({}, mailbox capacity {cap}) had been handled the mailbox was empty and no kill pending, yet on_run completed only {} more time(s) in 5 s (it sleeps 1 ms)", if blocking { "blocking_tell from an OS thread" } else { "tell" }, sh.ticks.load(Ordering::Acquire) - base));
+            if t0.elapsed() > Duration::from_secs(10) {
+                return bad("C08", "on-run-not-rearmed", format!("on_run returned Ok(true) every time; after message {i} of {msgs} ({}, mailbox capacity {cap}) had been handled the mailbox was empty and no kill pending, yet on_run completed only {} more time(s) in 10 s (it sleeps 1 ms)", if blocking { "blocking_tell from an OS thread" } else { "tell" }, sh.ticks.load(Ordering::Acquire) - base));
             }
             std::thread::sleep(Duration::from_micros(100));
         }
